@@ -279,3 +279,71 @@ def shrink_ssc(hexs, still_fails):
 
 SYNTHETIC = ["pack:2 l3:1 l2:2 l1d:1 l1i:1 core:1 pu:2", "group:2 group:2 pack:1 core:2 pu:1", "node:2 pack:1 l2:2 pu:2",
              "pack:1 die:2 l5:1 l4:1 l3:1 l3i:1 l2:1 l2i:1 l1:1 l1i:1 core:1 pu:1", "pu:3", "machine:1 group:3 numa:2 core:2 pu:2"]
+
+
+# ---------------------------------------------------------------------------
+# tables the C11 theorems rest on (for the "which entry changed" message only; never an oracle)
+GOLDEN_TABLES = ["obj_type_order", "obj_order_type", "type_is_normal_tbl", "type_is_memory_tbl", "type_is_io_tbl",
+                 "type_is_special_tbl", "type_is_cache_tbl", "type_is_dcache_tbl", "type_is_icache_tbl", "HWLOC_TYPE_UNORDERED",
+                 "compare_types_tbl", "cache_type_by_depth_type_tbl", "obj_type_string_tbl", "osdev_names_tbl", "cache_letter_tbl",
+                 "SIZEOF_ATTR_CACHE", "SIZEOF_ATTR_GROUP", "SIZEOF_ATTR_BRIDGE", "SIZEOF_ATTR_OSDEV", "SIZEOF_ATTR_UNION",
+                 "type_sscanf_dict_tbl", "HWLOC_OBJ_TYPE_MAX"]
+
+
+def read_tables(path):
+    """name -> list of entries (top-level elements of the list literal, or the scalar)"""
+    import re
+    txt = open(path).read()
+    res = {}
+    for name in GOLDEN_TABLES:
+        m = re.search(r"Definition %s\b[^:]*:[^=]*:=(.*?)\.\n" % re.escape(name), txt, re.S)
+        if not m:
+            continue
+        body = " ".join(m.group(1).split())
+        if body.startswith("["):
+            items, depth, cur, instr = [], 0, "", False
+            for ch in body[1:-1]:
+                if ch == '"':
+                    instr = not instr
+                if not instr and ch in "[(":
+                    depth += 1
+                if not instr and ch in "])":
+                    depth -= 1
+                if ch == ";" and depth == 0 and not instr:
+                    items.append(cur.strip()); cur = ""
+                else:
+                    cur += ch
+            if cur.strip():
+                items.append(cur.strip())
+            res[name] = items
+        else:
+            res[name] = [body]
+    return res
+
+
+def tables_diff(golden_path, current_path, limit=12):
+    """human-readable list of the table entries that differ from the golden copy"""
+    g, c = read_tables(golden_path), read_tables(current_path)
+    out = []
+    for name in GOLDEN_TABLES:
+        a, b = g.get(name), c.get(name)
+        if a == b:
+            continue
+        if a is None or b is None:
+            out.append("%s: %s" % (name, "missing in the current tables" if b is None else "not in the golden copy"))
+            continue
+        if len(a) != len(b):
+            out.append("%s: %d entries, golden copy has %d" % (name, len(b), len(a)))
+        for i, (x, y) in enumerate(zip(a, b)):
+            if x != y:
+                if name == "compare_types_tbl":
+                    xs, ys = x.strip("[]").split(";"), y.strip("[]").split(";")
+                    for j, (u, v) in enumerate(zip(xs, ys)):
+                        if u.strip() != v.strip():
+                            out.append("compare_types_tbl[%d][%d] (hwloc_compare_types(%d,%d)): now %s, golden %s" % (i, j, i, j, v.strip(), u.strip()))
+                else:
+                    out.append("%s[%d]: now %s, golden %s" % (name, i, y[:80], x[:80]))
+            if len(out) >= limit:
+                out.append("...")
+                return out
+    return out
